@@ -36,6 +36,7 @@ RULE = (
     "chosen sample is repeated with `python -m cutplace.applications` subprocesses and must give the same code. "
     "Non-trivial: >= 2 data files, or an existing data file with --until 3/4. Distinct by construction."
     "A valid CSV CID behind a byte order mark (the API decides whether it loads) and fixed-width data files are part of the matrix."
+    "Log levels rotate; one file kind has names that differ only in the kind of line break; the second file of the trailing-separator kind has no name at all."
 )
 ASSUMPTIONS = [
     "per-file reference verdicts come from cutplace.validate on a fresh Cid (the statement defines the exit code in "
